@@ -448,6 +448,60 @@ PosSpec gen_evasion_family(Rng& r)
     return p;
 }
 
+// A rook or queen plays e1-g1 / e1-c1 / e8-g8 / e8-c8 (the squares of a castling king move) while its own king is
+// elsewhere and the *opponent* still has castling rights: move text that looks like castling but is not.
+PosSpec gen_castle_lookalike(Rng& r)
+{
+    PosSpec p;
+    for (int attempt = 0; attempt < 200; ++attempt)
+    {
+        ref::Board b;
+        std::memset(b.sq, 0, sizeof b.sq);
+        b.ep = -1;
+        b.halfmove = int(r.below(20));
+        b.fullmove = int(r.range(15, 50));
+        bool white_moves = r.chance(0.5);
+        int my = white_moves ? 0 : 1;
+        int myrank = white_moves ? 0 : 7, oprank = white_moves ? 7 : 0;
+        // opponent: king and both rooks at home, all rights
+        b.sq[ref::sq_of(4, oprank)] = ref::mk(1 - my, ref::KIND_K);
+        b.sq[ref::sq_of(0, oprank)] = ref::mk(1 - my, ref::KIND_R);
+        b.sq[ref::sq_of(7, oprank)] = ref::mk(1 - my, ref::KIND_R);
+        b.castling = white_moves ? 12 : 3;
+        // mover: king away from the e-file, heavy piece on e1/e8, target side clear
+        bool kingside = r.chance(0.5);
+        int kf = kingside ? int(r.range(0, 2)) : int(r.range(6, 7));
+        b.sq[ref::sq_of(kf, myrank)] = ref::mk(my, ref::KIND_K);
+        b.sq[ref::sq_of(4, myrank)] = ref::mk(my, r.chance(0.6) ? ref::KIND_R : ref::KIND_Q);
+        // pawn shields so that nothing is en prise at once
+        for (int f = 0; f < 8; ++f)
+        {
+            if (r.chance(0.6)) b.sq[ref::sq_of(f, white_moves ? 1 : 6)] = ref::mk(my, ref::KIND_P);
+            if (r.chance(0.6)) b.sq[ref::sq_of(f, white_moves ? 6 : 1)] = ref::mk(1 - my, ref::KIND_P);
+        }
+        if (r.chance(0.5)) b.sq[ref::sq_of(int(r.range(2, 5)), white_moves ? 5 : 2)] = ref::mk(1 - my, ref::KIND_N);
+        b.side = my;
+        std::string fen = b.fen();
+        if (!fen_is_sane(fen)) continue;
+        ref::RMove m;
+        m.from = int8_t(ref::sq_of(4, myrank));
+        m.to = int8_t(ref::sq_of(kingside ? 6 : 2, myrank));
+        m.promo = 0;
+        ref::RMove chk;
+        ref::Board t = b;
+        if (!t.legal_uci(m.uci(), chk)) continue;
+        t.make(chk);
+        if (t.legal().empty()) continue;
+        p.start_fen = fen;
+        p.game = ref::Game(b);
+        p.game.push(chk);
+        playout(p.game, r, int(r.below(4)), 0.2);
+        if (p.game.cur.legal().empty()) continue;
+        return p;
+    }
+    return gen_evasion_family(r);
+}
+
 // >= 64 legal moves for the side to move, no mate within two moves, lone enemy king: wide nodes with cheap subtrees
 std::string gen_wide_fen(Rng& r)
 {
@@ -604,6 +658,7 @@ PosSpec gen_position(Rng& r, int max_plies, int source_mix)
     PosSpec p;
     // source_mix: 0 = general, 1 = sparse-heavy (endgames / mates), 2 = startpos games only
     if (source_mix != 2 && r.chance(0.06)) return gen_evasion_family(r);
+    if (source_mix != 2 && r.chance(0.04)) return gen_castle_lookalike(r);
     uint64_t pick = r.below(100);
     ref::Board start;
     if (source_mix == 2 || (source_mix == 0 && pick < 45))
